@@ -54,218 +54,7 @@ def check(prog, run):
     # ---- K1 selection-kind exhaustiveness (whole package)
     check_selection_dispatch(prog, run, "K1")
 
-    # ---- K2 collect_fields filtering
-    r = run.rule("K2", "collect_fields / collect_fields_untyped: a selection is skipped iff @skip/@include say so (fields), or "
-                       "also iff the type condition does not apply / the fragment was already visited (fragments); nothing is "
-                       "added or merged before those tests; groups are keyed by the response name (alias first); "
-                       "_skip_selection and _fragment_type_applies compute the specified conditions", 14)
-    for fname, typed in (("collect_fields", True), ("collect_fields_untyped", False)):
-        f = prog.get_func(CF, fname)
-        run.looked_at(f)
-        loops = [n for n in f.node.body if isinstance(n, ast.For)]
-        shapes.require(len(loops) == 1, "C04.K2: %s main loop not found" % fname)
-        lp = loops[0]
-        var = lp.target.id
-
-        def bev(test, truth, var=var):
-            for names, _, pos in shapes.class_tests_signed(test, var):
-                if truth == pos:
-                    return "is:" + "|".join(names)
-            return None
-
-        acc_names = {x.value.id for x in own_nodes(f.node) if isinstance(x, ast.Return) and isinstance(x.value, ast.Name)}
-
-        def ev(n):
-            if isinstance(n, ast.Call) and isinstance(n.func, ast.Name):
-                if n.func.id == "_skip_selection":
-                    return "skip"
-                if n.func.id == "_fragment_type_applies":
-                    return "applies"
-                if n.func.id == "_merge":
-                    return "merge"
-            if isinstance(n, ast.Call) and isinstance(n.func, ast.Attribute) and n.func.attr == "append" \
-                    and any(isinstance(x, ast.Name) and x.id in acc_names for x in ast.walk(n.func.value)):
-                return "add"      # appended to a group of the accumulator (= the mapping the function returns)
-            return None
-        normal, _ = event_paths(None, ev, branch_event=bev, body=lp.body, may_raise=lambda n: None, cap=12)
-        for seq in sorted(normal):
-            r.instance("%s iteration path %s" % (fname, list(seq)))
-            kind = [e[3:] for e in seq if e.startswith("is:")]
-            act = [e for e in seq if e in ("add", "merge")]
-            if not act:
-                continue
-            first_act = min(seq.index(a) for a in act)
-            key = "%s:%s:path(%s)" % (CF, fname, ">".join(seq))
-            if "skip" not in seq[:first_act]:
-                run.report(r, key, f.where(lp), "a selection is collected without @skip/@include having been evaluated: %s" % list(seq))
-            if typed and kind and kind[-1] in ("InlineFragment", "FragmentSpread") and "applies" not in seq[:first_act]:
-                run.report(r, key, f.where(lp), "a fragment's fields are merged without checking its type condition: %s" % list(seq))
-            if kind and kind[-1] == "Field" and "merge" in act or (kind and kind[-1] != "Field" and "add" in act):
-                run.report(r, key, f.where(lp), "wrong accumulation for selection kind %s: %s" % (kind[-1], list(seq)))
-        # truth tables of the skip conditions, in path form: for each selection kind and each assignment of
-        # (skipped by directives, type condition applies, fragment already seen) the iteration either collects the
-        # selection (an add/merge event happens) or does not — whatever the shape of the tests and `continue`s
-        from .. import dispatch
-        hier = dispatch.Hierarchy(prog)
-        body_fn = boolx.body_function(lp.body)
-        for kind_name in ("Field", "InlineFragment", "FragmentSpread"):
-            bad, rows = [], 0
-            for skip in (False, True):
-                for applies in (False, True):
-                    for seen in (False, True):
-                        def extra(t, skip=skip, applies=applies, seen=seen):
-                            if t.startswith("_skip_selection("):
-                                return skip
-                            if t.startswith("_fragment_type_applies("):
-                                return applies
-                            if t.endswith(" in _seen_fragments"):
-                                return seen
-                            return None
-                        try:
-                            _ev, bexits = boolx.walk_under(body_fn, dispatch.decide_for(hier, var, kind_name, extra))
-                        except ValueError as e:
-                            raise AnalysisError("C04.K2 %s: %s" % (fname, e))
-                        outcomes = set()
-                        for k_, st_, env_ in bexits:
-                            if any(h.type is not None and "KeyError" in ast.unparse(h.type) for h in env_.get(boolx.HANDLERS, ())):
-                                continue      # the spread names an unknown fragment: nothing to collect
-                            collected_ = any(ev(c) in ("add", "merge") for c in env_.get(boolx.CALLS, ()))
-                            outcomes.add(collected_)
-                        if kind_name == "Field":
-                            want = not skip
-                        elif kind_name == "InlineFragment":
-                            want = (not skip and applies) if typed else (not skip)
-                        else:
-                            want = (not skip and not seen and applies) if typed else (not skip and not seen)
-                        rows += 1
-                        if outcomes != {want}:
-                            bad.append({"skip": skip, "applies": applies, "seen": seen, "collected": sorted(outcomes), "expected": want})
-            r.instance("%s: %s skip table (%d rows), %d wrong" % (fname, kind_name, rows, len(bad)))
-            if bad:
-                run.report(r, "%s:%s:skip-condition(%s)" % (CF, fname, kind_name), f.where(lp),
-                           "the skip condition for %s has the wrong truth table: %s" % (kind_name, bad[:3]), {"rows": bad})
-        # grouping key and accumulator, by data flow: the accumulator is what the function returns; every subscript of it
-        # inside the loop is keyed (through locals) by <selection>.response_name
-        from ..canon import Canon
-        fcn = Canon(f.node)
-        accs = {n.value.id for n in own_nodes(f.node) if isinstance(n, ast.Return) and isinstance(n.value, ast.Name)}
-        shapes.require(len(accs) == 1, "C04.K2: %s does not return a single accumulator variable" % fname)
-        accn = accs.pop()
-        subs = [n for n in ast.walk(lp) if isinstance(n, ast.Subscript) and isinstance(n.value, ast.Name) and n.value.id == accn]
-        ktexts = sorted({fcn.text(n.slice) for n in subs})
-        r.instance("%s group key(s) %s" % (fname, ktexts))
-        if ktexts != ["%s.response_name" % var]:
-            run.report(r, "%s:%s:group-key" % (CF, fname), f.where(lp), "fields are not grouped under selection.response_name")
-        acc = [n for n in f.node.body if isinstance(n, ast.Assign) and ast.unparse(n.targets[0]) == accn]
-        if not acc or "OrderedDict" not in ast.unparse(acc[0].value) and ast.unparse(acc[0].value) not in ("{}", "dict()"):
-            run.report(r, "%s:%s:accumulator" % (CF, fname), f.where(), "grouped fields are not accumulated in an insertion-ordered mapping")
-    fld = prog.get_class("py_gql.lang.ast", "Field")
-    rn = fld.find_method("response_name")
-    shapes.require(rn is not None, "C04.K2: ast.Field.response_name not found")
-    # path form: alias present -> alias.value, absent -> name.value (whatever the statement shape)
-    got = {}
-    for present in (True, False):
-        def decide(t, present=present):
-            if t == "self.alias":
-                return present
-            if t == "self.alias is None":
-                return not present
-            return None
-        try:
-            _ev, rexits = boolx.walk_under(rn.node, decide)
-        except ValueError as e:
-            raise AnalysisError("C04.K2: %s" % e)
-        vals = set()
-        for kind, st, env in rexits:
-            atoms = {a: b for a, b in env.items() if a not in boolx.META}
-            vals.add(ast.unparse(boolx.path_value(env.get(boolx.STMTS, ()), st, st.value, atoms)) if kind == "return" and st.value is not None else "<%s>" % kind)
-        got[present] = vals
-    r.instance("response_name returns %s with an alias, %s without" % (sorted(got[True]), sorted(got[False])))
-    if got[True] != {"self.alias.value"} or got[False] != {"self.name.value"}:
-        run.report(r, "py_gql.lang.ast:Field.response_name:shape", rn.where(), "response_name is not `alias if present else name`")
-    # _skip_selection
-    sk = prog.get_func(CF, "_skip_selection")
-    run.looked_at(sk)
-    binds = {}
-    for n in own_nodes(sk.node):
-        if isinstance(n, ast.Assign) and isinstance(n.value, ast.Call) and isinstance(n.value.func, ast.Name) and n.value.func.id == "directive_arguments":
-            binds[n.targets[0].id] = ast.unparse(n.value.args[0])
-    inv = {v: k for k, v in binds.items()}
-    r.instance("_skip_selection directive bindings %s" % binds)
-    if set(binds.values()) != {"SkipDirective", "IncludeDirective"}:
-        run.report(r, "%s:_skip_selection:directives" % CF, sk.where(), "_skip_selection does not read both @skip and @include: %s" % binds)
-    else:
-        # path form of the truth table: what the function returns on each of the 16 assignments of
-        # (skip present, skip.if, include present, include.if), whatever its statement shape
-        sv, iv = inv["SkipDirective"], inv["IncludeDirective"]
-        bad, rows = [], 0
-        for sp in (False, True):
-            for si in (False, True):
-                for ip in (False, True):
-                    for ii in (False, True):
-                        env = {"%s is None" % sv: not sp, sv: sp, "%s['if']" % sv: si,
-                               "%s is None" % iv: not ip, iv: ip, "%s['if']" % iv: ii}
-                        try:
-                            got = boolx.returned_truths(sk.node, lambda t, env=env: env.get(t))
-                        except ValueError as e:
-                            raise AnalysisError("C04.K2: _skip_selection: %s" % e)
-                        want = (sp and si) or (ip and not ii)
-                        rows += 1
-                        if got != {want}:
-                            bad.append({"skip_present": sp, "skip_if": si, "include_present": ip, "include_if": ii, "returns": sorted(map(str, got)), "expected": want})
-        r.instance("_skip_selection truth table (%d rows), %d wrong" % (rows, len(bad)))
-        if bad:
-            run.report(r, "%s:_skip_selection:truth-table" % CF, sk.where(),
-                       "_skip_selection differs from (skip present and skip.if) or (include present and not include.if) on %d of 16 "
-                       "rows, e.g. %s" % (len(bad), bad[0]), {"rows": bad})
-    # _fragment_type_applies
-    fa = prog.get_func(CF, "_fragment_type_applies")
-    run.looked_at(fa)
-    # path form: (has a type condition, same type, abstract, possible) -> applies; the local holding the resolved
-    # fragment type is found by data flow (bound to get_type_from_literal(...)), parameters keep their names
-    ftv = [n.targets[0].id for n in own_nodes(fa.node) if isinstance(n, ast.Assign) and len(n.targets) == 1 and isinstance(n.targets[0], ast.Name)
-           and isinstance(n.value, ast.Call) and isinstance(n.value.func, ast.Attribute) and n.value.func.attr == "get_type_from_literal"]
-    shapes.require(len(ftv) == 1, "C04.K2: _fragment_type_applies no longer resolves the type condition with get_type_from_literal")
-    ftn = ftv[0]
-    objp, fragp = fa.params[1], fa.params[2]
-    bad, rows = [], 0
-    for has_cond in (False, True):
-        for same in (False, True):
-            for abstract in (False, True):
-                for possible in (False, True):
-                    def decide(t, has_cond=has_cond, same=same, abstract=abstract, possible=possible):
-                        tt = t.replace(" ", "")
-                        if tt == "%s.type_condition" % fragp:
-                            return has_cond
-                        if tt == "%s.type_conditionisNone" % fragp:
-                            return not has_cond
-                        if tt in ("%s==%s" % (ftn, objp), "%s==%s" % (objp, ftn), "%sis%s" % (ftn, objp), "%sis%s" % (objp, ftn)):
-                            return same
-                        if tt.startswith("isinstance(%s," % ftn) and "GraphQLAbstractType" in tt:
-                            return abstract
-                        if tt.endswith(".is_possible_type(%s,%s)" % (ftn, objp)):
-                            return possible
-                        if "is_possible_type(" in tt:
-                            raise AnalysisError("is_possible_type called with other arguments: %s" % t)
-                        return None
-                    try:
-                        got = boolx.returned_truths(fa.node, decide)
-                    except ValueError as e:
-                        raise AnalysisError("C04.K2: _fragment_type_applies: %s" % e)
-                    except AnalysisError as e:
-                        run.report(r, "%s:_fragment_type_applies:arguments" % CF, fa.where(), "type-condition test: %s" % e)
-                        got = None
-                    if got is None:
-                        break
-                    want = (not has_cond) or same or (abstract and possible)
-                    rows += 1
-                    if got != {want}:
-                        bad.append({"has_condition": has_cond, "same": same, "abstract": abstract, "possible": possible, "returns": sorted(map(str, got)), "expected": want})
-    r.instance("_fragment_type_applies truth table (%d rows), %d wrong" % (rows, len(bad)))
-    if bad:
-        key = "no-condition" if any(not b["has_condition"] for b in bad) and all(not b["has_condition"] or b["returns"] == [str(b["expected"])] for b in bad) else "truth-table"
-        run.report(r, "%s:_fragment_type_applies:%s" % (CF, key), fa.where(),
-                   "the type-condition test differs from (no type condition) or same-type or (abstract and possible type): %s" % bad[:2])
+    check_collect_filtering(prog, run, "K2")
 
     # ---- K3 complete_value dispatch
     r = run.rule("K3", "complete_value handles NonNull before the null short-cut, then List, Scalar, Enum and composite types, "
@@ -842,3 +631,219 @@ def check_add_error(prog, run, r):
                        "when a response path is given (%s) add_error can finish with err.path = %s%s: the error reported for the "
                        "nulled field does not carry that field's path" % (cond, val, "" if appended else " and without appending the error"))
             break
+
+
+
+def check_collect_filtering(prog, run, rule_id="K2"):
+    # ---- K2 collect_fields filtering
+    r = run.rule(rule_id, "collect_fields / collect_fields_untyped: a selection is skipped iff @skip/@include say so (fields), or "
+                       "also iff the type condition does not apply / the fragment was already visited (fragments); nothing is "
+                       "added or merged before those tests; groups are keyed by the response name (alias first); "
+                       "_skip_selection and _fragment_type_applies compute the specified conditions", 14)
+    for fname, typed in (("collect_fields", True), ("collect_fields_untyped", False)):
+        f = prog.get_func(CF, fname)
+        run.looked_at(f)
+        loops = [n for n in f.node.body if isinstance(n, ast.For)]
+        shapes.require(len(loops) == 1, "C04.K2: %s main loop not found" % fname)
+        lp = loops[0]
+        var = lp.target.id
+
+        def bev(test, truth, var=var):
+            for names, _, pos in shapes.class_tests_signed(test, var):
+                if truth == pos:
+                    return "is:" + "|".join(names)
+            return None
+
+        acc_names = {x.value.id for x in own_nodes(f.node) if isinstance(x, ast.Return) and isinstance(x.value, ast.Name)}
+
+        def ev(n):
+            if isinstance(n, ast.Call) and isinstance(n.func, ast.Name):
+                if n.func.id == "_skip_selection":
+                    return "skip"
+                if n.func.id == "_fragment_type_applies":
+                    return "applies"
+                if n.func.id == "_merge":
+                    return "merge"
+            if isinstance(n, ast.Call) and isinstance(n.func, ast.Attribute) and n.func.attr == "append" \
+                    and any(isinstance(x, ast.Name) and x.id in acc_names for x in ast.walk(n.func.value)):
+                return "add"      # appended to a group of the accumulator (= the mapping the function returns)
+            return None
+        normal, _ = event_paths(None, ev, branch_event=bev, body=lp.body, may_raise=lambda n: None, cap=12)
+        for seq in sorted(normal):
+            r.instance("%s iteration path %s" % (fname, list(seq)))
+            kind = [e[3:] for e in seq if e.startswith("is:")]
+            act = [e for e in seq if e in ("add", "merge")]
+            if not act:
+                continue
+            first_act = min(seq.index(a) for a in act)
+            key = "%s:%s:path(%s)" % (CF, fname, ">".join(seq))
+            if "skip" not in seq[:first_act]:
+                run.report(r, key, f.where(lp), "a selection is collected without @skip/@include having been evaluated: %s" % list(seq))
+            if typed and kind and kind[-1] in ("InlineFragment", "FragmentSpread") and "applies" not in seq[:first_act]:
+                run.report(r, key, f.where(lp), "a fragment's fields are merged without checking its type condition: %s" % list(seq))
+            if kind and kind[-1] == "Field" and "merge" in act or (kind and kind[-1] != "Field" and "add" in act):
+                run.report(r, key, f.where(lp), "wrong accumulation for selection kind %s: %s" % (kind[-1], list(seq)))
+        # truth tables of the skip conditions, in path form: for each selection kind and each assignment of
+        # (skipped by directives, type condition applies, fragment already seen) the iteration either collects the
+        # selection (an add/merge event happens) or does not — whatever the shape of the tests and `continue`s
+        from .. import dispatch
+        hier = dispatch.Hierarchy(prog)
+        body_fn = boolx.body_function(lp.body)
+        for kind_name in ("Field", "InlineFragment", "FragmentSpread"):
+            bad, rows = [], 0
+            for skip in (False, True):
+                for applies in (False, True):
+                    for seen in (False, True):
+                        def extra(t, skip=skip, applies=applies, seen=seen):
+                            if t.startswith("_skip_selection("):
+                                return skip
+                            if t.startswith("_fragment_type_applies("):
+                                return applies
+                            if t.endswith(" in _seen_fragments"):
+                                return seen
+                            return None
+                        try:
+                            _ev, bexits = boolx.walk_under(body_fn, dispatch.decide_for(hier, var, kind_name, extra))
+                        except ValueError as e:
+                            raise AnalysisError("C04.K2 %s: %s" % (fname, e))
+                        outcomes = set()
+                        for k_, st_, env_ in bexits:
+                            if any(h.type is not None and "KeyError" in ast.unparse(h.type) for h in env_.get(boolx.HANDLERS, ())):
+                                continue      # the spread names an unknown fragment: nothing to collect
+                            collected_ = any(ev(c) in ("add", "merge") for c in env_.get(boolx.CALLS, ()))
+                            outcomes.add(collected_)
+                        if kind_name == "Field":
+                            want = not skip
+                        elif kind_name == "InlineFragment":
+                            want = (not skip and applies) if typed else (not skip)
+                        else:
+                            want = (not skip and not seen and applies) if typed else (not skip and not seen)
+                        rows += 1
+                        if outcomes != {want}:
+                            bad.append({"skip": skip, "applies": applies, "seen": seen, "collected": sorted(outcomes), "expected": want})
+            r.instance("%s: %s skip table (%d rows), %d wrong" % (fname, kind_name, rows, len(bad)))
+            if bad:
+                run.report(r, "%s:%s:skip-condition(%s)" % (CF, fname, kind_name), f.where(lp),
+                           "the skip condition for %s has the wrong truth table: %s" % (kind_name, bad[:3]), {"rows": bad})
+        # grouping key and accumulator, by data flow: the accumulator is what the function returns; every subscript of it
+        # inside the loop is keyed (through locals) by <selection>.response_name
+        from ..canon import Canon
+        fcn = Canon(f.node)
+        accs = {n.value.id for n in own_nodes(f.node) if isinstance(n, ast.Return) and isinstance(n.value, ast.Name)}
+        shapes.require(len(accs) == 1, "C04.K2: %s does not return a single accumulator variable" % fname)
+        accn = accs.pop()
+        subs = [n for n in ast.walk(lp) if isinstance(n, ast.Subscript) and isinstance(n.value, ast.Name) and n.value.id == accn]
+        ktexts = sorted({fcn.text(n.slice) for n in subs})
+        r.instance("%s group key(s) %s" % (fname, ktexts))
+        if ktexts != ["%s.response_name" % var]:
+            run.report(r, "%s:%s:group-key" % (CF, fname), f.where(lp), "fields are not grouped under selection.response_name")
+        acc = [n for n in f.node.body if isinstance(n, ast.Assign) and ast.unparse(n.targets[0]) == accn]
+        if not acc or "OrderedDict" not in ast.unparse(acc[0].value) and ast.unparse(acc[0].value) not in ("{}", "dict()"):
+            run.report(r, "%s:%s:accumulator" % (CF, fname), f.where(), "grouped fields are not accumulated in an insertion-ordered mapping")
+    fld = prog.get_class("py_gql.lang.ast", "Field")
+    rn = fld.find_method("response_name")
+    shapes.require(rn is not None, "C04.K2: ast.Field.response_name not found")
+    # path form: alias present -> alias.value, absent -> name.value (whatever the statement shape)
+    got = {}
+    for present in (True, False):
+        def decide(t, present=present):
+            if t == "self.alias":
+                return present
+            if t == "self.alias is None":
+                return not present
+            return None
+        try:
+            _ev, rexits = boolx.walk_under(rn.node, decide)
+        except ValueError as e:
+            raise AnalysisError("C04.K2: %s" % e)
+        vals = set()
+        for kind, st, env in rexits:
+            atoms = {a: b for a, b in env.items() if a not in boolx.META}
+            vals.add(ast.unparse(boolx.path_value(env.get(boolx.STMTS, ()), st, st.value, atoms)) if kind == "return" and st.value is not None else "<%s>" % kind)
+        got[present] = vals
+    r.instance("response_name returns %s with an alias, %s without" % (sorted(got[True]), sorted(got[False])))
+    if got[True] != {"self.alias.value"} or got[False] != {"self.name.value"}:
+        run.report(r, "py_gql.lang.ast:Field.response_name:shape", rn.where(), "response_name is not `alias if present else name`")
+    # _skip_selection
+    sk = prog.get_func(CF, "_skip_selection")
+    run.looked_at(sk)
+    binds = {}
+    for n in own_nodes(sk.node):
+        if isinstance(n, ast.Assign) and isinstance(n.value, ast.Call) and isinstance(n.value.func, ast.Name) and n.value.func.id == "directive_arguments":
+            binds[n.targets[0].id] = ast.unparse(n.value.args[0])
+    inv = {v: k for k, v in binds.items()}
+    r.instance("_skip_selection directive bindings %s" % binds)
+    if set(binds.values()) != {"SkipDirective", "IncludeDirective"}:
+        run.report(r, "%s:_skip_selection:directives" % CF, sk.where(), "_skip_selection does not read both @skip and @include: %s" % binds)
+    else:
+        # path form of the truth table: what the function returns on each of the 16 assignments of
+        # (skip present, skip.if, include present, include.if), whatever its statement shape
+        sv, iv = inv["SkipDirective"], inv["IncludeDirective"]
+        bad, rows = [], 0
+        for sp in (False, True):
+            for si in (False, True):
+                for ip in (False, True):
+                    for ii in (False, True):
+                        env = {"%s is None" % sv: not sp, sv: sp, "%s['if']" % sv: si,
+                               "%s is None" % iv: not ip, iv: ip, "%s['if']" % iv: ii}
+                        try:
+                            got = boolx.returned_truths(sk.node, lambda t, env=env: env.get(t))
+                        except ValueError as e:
+                            raise AnalysisError("C04.K2: _skip_selection: %s" % e)
+                        want = (sp and si) or (ip and not ii)
+                        rows += 1
+                        if got != {want}:
+                            bad.append({"skip_present": sp, "skip_if": si, "include_present": ip, "include_if": ii, "returns": sorted(map(str, got)), "expected": want})
+        r.instance("_skip_selection truth table (%d rows), %d wrong" % (rows, len(bad)))
+        if bad:
+            run.report(r, "%s:_skip_selection:truth-table" % CF, sk.where(),
+                       "_skip_selection differs from (skip present and skip.if) or (include present and not include.if) on %d of 16 "
+                       "rows, e.g. %s" % (len(bad), bad[0]), {"rows": bad})
+    # _fragment_type_applies
+    fa = prog.get_func(CF, "_fragment_type_applies")
+    run.looked_at(fa)
+    # path form: (has a type condition, same type, abstract, possible) -> applies; the local holding the resolved
+    # fragment type is found by data flow (bound to get_type_from_literal(...)), parameters keep their names
+    ftv = [n.targets[0].id for n in own_nodes(fa.node) if isinstance(n, ast.Assign) and len(n.targets) == 1 and isinstance(n.targets[0], ast.Name)
+           and isinstance(n.value, ast.Call) and isinstance(n.value.func, ast.Attribute) and n.value.func.attr == "get_type_from_literal"]
+    shapes.require(len(ftv) == 1, "C04.K2: _fragment_type_applies no longer resolves the type condition with get_type_from_literal")
+    ftn = ftv[0]
+    objp, fragp = fa.params[1], fa.params[2]
+    bad, rows = [], 0
+    for has_cond in (False, True):
+        for same in (False, True):
+            for abstract in (False, True):
+                for possible in (False, True):
+                    def decide(t, has_cond=has_cond, same=same, abstract=abstract, possible=possible):
+                        tt = t.replace(" ", "")
+                        if tt == "%s.type_condition" % fragp:
+                            return has_cond
+                        if tt == "%s.type_conditionisNone" % fragp:
+                            return not has_cond
+                        if tt in ("%s==%s" % (ftn, objp), "%s==%s" % (objp, ftn), "%sis%s" % (ftn, objp), "%sis%s" % (objp, ftn)):
+                            return same
+                        if tt.startswith("isinstance(%s," % ftn) and "GraphQLAbstractType" in tt:
+                            return abstract
+                        if tt.endswith(".is_possible_type(%s,%s)" % (ftn, objp)):
+                            return possible
+                        if "is_possible_type(" in tt:
+                            raise AnalysisError("is_possible_type called with other arguments: %s" % t)
+                        return None
+                    try:
+                        got = boolx.returned_truths(fa.node, decide)
+                    except ValueError as e:
+                        raise AnalysisError("C04.K2: _fragment_type_applies: %s" % e)
+                    except AnalysisError as e:
+                        run.report(r, "%s:_fragment_type_applies:arguments" % CF, fa.where(), "type-condition test: %s" % e)
+                        got = None
+                    if got is None:
+                        break
+                    want = (not has_cond) or same or (abstract and possible)
+                    rows += 1
+                    if got != {want}:
+                        bad.append({"has_condition": has_cond, "same": same, "abstract": abstract, "possible": possible, "returns": sorted(map(str, got)), "expected": want})
+    r.instance("_fragment_type_applies truth table (%d rows), %d wrong" % (rows, len(bad)))
+    if bad:
+        key = "no-condition" if any(not b["has_condition"] for b in bad) and all(not b["has_condition"] or b["returns"] == [str(b["expected"])] for b in bad) else "truth-table"
+        run.report(r, "%s:_fragment_type_applies:%s" % (CF, key), fa.where(),
+                   "the type-condition test differs from (no type condition) or same-type or (abstract and possible type): %s" % bad[:2])
